@@ -154,6 +154,18 @@ def fuzzyHash (t : Topo) : Str :=
   "B".toList ++ natStr b ++ "L".toList ++ natStr l ++ "BR".toList ++ natStr br ++
   "P".toList ++ natStr t.paramCount ++ "R".toList ++ natStr t.returnCount
 
+/-- topology.TopologyFingerprint: the short shape string the diff report prints for either side of a
+    matched pair (`old_topology` / `new_topology`).  The Go code ranges over the CallSignatures MAP,
+    sorts the keys, and prints at most three of them followed by `,...(n)`. -/
+def topoFingerprint (t : Topo) : Str :=
+  let calls := sortStrs (t.calls.map (·.1))
+  let callStr :=
+    if 3 < calls.length then
+      intercalateStr [','] (calls.take 3) ++ ",...(".toList ++ natStr (calls.length : Nat) ++ [')']
+    else intercalateStr [','] calls
+  "L".toList ++ natStr t.loopCount ++ "B".toList ++ natStr t.branchCount ++ "I".toList ++ natStr t.instrCount ++
+  ['['] ++ callStr ++ [']']
+
 structure MatchResult where
   sigId : Str
   sigName : Str
